@@ -33,7 +33,25 @@ def tests_ok(wt):
     return compiled and not failed, failed, out[-1500:]
 
 
+def rebase(wt):
+    """Move a seeded worktree onto /repo's current HEAD (the seeds are judged against the current tree)."""
+    rc, cur = sh("git diff -- src Cargo.toml", cwd=wt)
+    open(os.path.join(wt, "_seed_cur.diff"), "w").write(cur)
+    head = sh("git -C /repo rev-parse HEAD")[1].strip()
+    sh("git apply -R _seed_cur.diff", cwd=wt)
+    rc1, o1 = sh("git checkout -q --detach " + head, cwd=wt)
+    rc2, o2 = sh("git apply --3way _seed_cur.diff", cwd=wt)
+    if rc2 != 0:
+        rc2, o2 = sh("git apply _seed_cur.diff", cwd=wt)
+    print("rebase", wt, "->", head[:8], "ok" if rc2 == 0 else "FAILED: " + o2[-300:])
+    sh("git reset -q", cwd=wt)
+    os.remove(os.path.join(wt, "_seed_cur.diff"))
+    return rc2 == 0
+
+
 def main():
+    if len(sys.argv) >= 3 and sys.argv[1] == "rebase":
+        return 0 if all(rebase(os.path.abspath(w)) for w in sys.argv[2:]) else 1
     if len(sys.argv) < 5 or sys.argv[1] != "confirm":
         print(__doc__)
         return 2
